@@ -204,6 +204,7 @@ struct dirent* readdir(DIR* d) {
   using F = struct dirent* (*)(DIR*);
   static F r = real<F>("readdir");
   struct dirent* e = r(d);
+  if (e && ip().active && ip().onReaddir) ip().onReaddir(verif::fdPath(dirfd(d)), e->d_name);
   if (e && ip().active && ip().clearDType) e->d_type = DT_UNKNOWN;
   return e;
 }
@@ -212,6 +213,7 @@ struct dirent64* readdir64(DIR* d) {
   using F = struct dirent64* (*)(DIR*);
   static F r = real<F>("readdir64");
   struct dirent64* e = r(d);
+  if (e && ip().active && ip().onReaddir) ip().onReaddir(verif::fdPath(dirfd(d)), e->d_name);
   if (e && ip().active && ip().clearDType) e->d_type = DT_UNKNOWN;
   return e;
 }
